@@ -141,6 +141,8 @@ partial def legacyExpressible (is : List Instr) : Bool :=
 def modelOpt (line : String) : Option String := do
   match ← Sexp.parse line with
   | .list [.atom "direct", c, .list acts] => showDirect (← parseCmd c) false (← acts.mapM parseAction)
+  -- `complete`: a direct case of the modelled fragment that is ALSO judged by the completeness clause of the oracle
+  | .list [.atom "complete", c, .list acts] => showDirect (← parseCmd c) false (← acts.mapM parseAction)
   | .list [.atom "core", .list prog, .list acts] => showCore (← parseProg prog) false (← acts.mapM parseAction)
   | .list [.atom "bridge", .list prog, .list acts] => showBridge (← parseProg prog) false (← acts.mapM parseAction)
   | .list [.atom "jbridge", .list prog, .list acts] => showBridge (← parseProg prog) false (← acts.mapM parseAction)
@@ -178,7 +180,7 @@ def modelOpt (line : String) : Option String := do
 
 def isCase (line : String) : Bool :=
   match Sexp.parse line with
-  | some (.list (.atom h :: _)) => ["direct", "core", "bridge", "jbridge", "law", "comm", "hosts", "ext"].contains h
+  | some (.list (.atom h :: _)) => ["direct", "core", "bridge", "jbridge", "law", "comm", "hosts", "ext", "complete"].contains h
   | _ => false
 
 def model (line : String) : String :=
